@@ -872,7 +872,7 @@ pub open spec fn prune_exact(old: World, fin: World, dir: PathV, cap: nat, recs:
             ('C05 C18 C06:error-is-a-missing-directory-or-a-real-fault',
              'r.is_err() ==> final(w).hard_faults > old(w).hard_faults || (absent_err(err_of(r)) && !old(w).dirs.contains(pbv(cache_dir)) && final(w).same_fs(*old(w)))'),
         ])
-    pr.insert_before('let update =', 'let ghost recs = cached_files@;\n    let ghost w1 = *w;\n    let ghost dir = pbv(cache_dir);\n    ')
+    pr.insert_before(('let update =', 'let mut update ='), 'let ghost recs = cached_files@;\n    let ghost w1 = *w;\n    let ghost dir = pbv(cache_dir);\n    proof { assert(recs.len() == cached_files.len()); }\n    ')
     pr.insert_before('let num_evicted =',
                      'let ghost ev = update.to_evict@;\n    let ghost mb = update.to_move_back@;\n'
                      '    proof {\n'
